@@ -138,7 +138,6 @@ func serializeAttrs(pc *PrintCtx, kvps Attrs) (err error) { //nolint:revive
 // first member is not preceded by a comma.
 func serializeAttrsImpl(pc *PrintCtx, kvps Attrs, asObject bool) (err error) { //nolint:revive
 	prefix := pc.prefix
-	inGroupedMode := pc.inGroupedMode
 
 	if pc.dedupeAttrs {
 		slices.SortFunc(kvps, func(a, b Attr) int {
@@ -189,9 +188,10 @@ func serializeAttrsImpl(pc *PrintCtx, kvps Attrs, asObject bool) (err error) { /
 			ct.echoColorAndBg(pc, pc.clr, pc.bg)
 		}
 
-		if !inGroupedMode {
-			_, inGroupedMode = v.(groupedValue)
-		}
+		// whether THIS attribute is a group; the members of a group
+		// get their dotted keys through pc.prefix. (A flag that stayed
+		// set after the first group made every later sibling lose its key.)
+		_, inGroupedMode := v.(groupedValue)
 
 		key := v.Key()
 		if inGroupedMode && !pc.jsonMode && pc.valueStringer == nil {
